@@ -1,19 +1,29 @@
 #!/bin/bash
-# tools/reeval_all.sh : re-evaluate every filed mutant of the three waves against the current /repo HEAD and the current checks
-# (scratch worktrees /tmp/mut-Cxx for letters A-D, /tmp/m3-Cxx for E-F must exist); output /tmp/reeval/<id>-<letters>.out
+# tools/reeval_all.sh : re-evaluate every filed mutant of the four waves against the current /repo HEAD and the current checks
+# (scratch worktrees /tmp/mut-Cxx for letters A-D, /tmp/m3-Cxx for E-F, /tmp/m4-Cxx for G-H must exist); output /tmp/reeval/<id>-<letters>.out
 H=$(git -C /repo rev-parse HEAD)
-for d in /tmp/mut-C* /tmp/m3-C*; do git -C $d checkout -q -- py34 2>/dev/null; git -C $d checkout -q --detach $H; done
-mkdir -p /tmp/reeval
+for d in /tmp/mut-C* /tmp/m3-C* /tmp/m4-C*; do git -C $d checkout -q -- py34 2>/dev/null; git -C $d checkout -q --detach $H; done
+mkdir -p /tmp/reeval; rm -f /tmp/reeval/*.out /tmp/reeval/DONE
 extras() {
   case $1 in
     C04) echo "C14 C11 C10";; C05) echo "C11 C10";; C10) echo "C14";; C15) echo "C17";; C17) echo "C14";; *) echo "";;
   esac
 }
+extras_gh() {
+  case $1 in
+    C03) echo "C01";; C04) echo "C11";; C09) echo "C13";; C12) echo "C11 C04";; C17) echo "C14";; C19) echo "C10";; C20) echo "C14";; *) echo "";;
+  esac
+}
 jobs_file=/tmp/reeval/jobs.txt; : > $jobs_file
+for i in $(seq -w 1 20); do
+  id=C$i
+  echo "/venv/bin/python /verif/tools/keep_mutants.py $id --letters=GH --wt=/tmp/m4- $(extras_gh $id) > /tmp/reeval/$id-GH.out 2>&1" >> $jobs_file
+done
 for i in $(seq -w 1 20); do
   id=C$i
   echo "/venv/bin/python /verif/tools/keep_mutants.py $id --letters=ABCD $(extras $id) > /tmp/reeval/$id-ABCD.out 2>&1" >> $jobs_file
   echo "/venv/bin/python /verif/tools/keep_mutants.py $id --letters=EF --wt=/tmp/m3- $(extras $id) > /tmp/reeval/$id-EF.out 2>&1" >> $jobs_file
 done
 xargs -P 5 -I{} sh -c "{}" < $jobs_file
-cat /tmp/reeval/C*-*.out | grep -E "^C[0-9]+-[A-F]:|missing|does not apply" | sed 's/tests\[[^]]*\] //'
+cat /tmp/reeval/C*-*.out | grep -E "^C[0-9]+-[A-H]:|missing|does not apply" | sed 's/tests\[[^]]*\] //'
+touch /tmp/reeval/DONE
